@@ -96,8 +96,8 @@ def step (st : WSt) (ws : List String) : Option (WSt × String) :=
     let c : Ctx := { w := st.w }
     let (c, msg) := c.opUnload t
     let c := c.deliverRouted
-    if msg ≠ "" then some (st, msg) else
-    let st := { st with w := c.w }
+    if msg ≠ "" then some ({ st with snap := none }, msg) else
+    let st := { st with w := c.w, snap := none }
     some (st, render st c)
   | op :: sid :: rest =>
     match st.w.sess? sid with
@@ -134,9 +134,8 @@ def step (st : WSt) (ws : List String) : Option (WSt × String) :=
         let c := c.deliverRouted
         let stOut := { st with w := c.w }
         let line := render stOut c
-        -- the crash snapshot, if one was taken during this op, is what `restart` restores
-        let snap := match c.snap with | some s => some s | none => (if st.crashK ≠ 0 then none else st.snap)
-        some ({ w := c.w, failK := 0, crashK := 0, snap := snap }, line)
+        -- the crash snapshot, if one was taken during this op, is what an immediately following `restart` restores
+        some ({ w := c.w, failK := 0, crashK := 0, snap := c.snap }, line)
   | _ => none
 
 end Tinode.Driver.World
